@@ -22,7 +22,7 @@ Contracts are owned by C05/C12 (pairing), C07/C13/C17 (group law, subgroup check
 import z3
 from . import core
 from .core import SymZ, SymBool, Unsupported
-from .sbytes import SymBytes, SEQ
+from .sbytes import SymBytes, SEQ, AbsBytes, BYTES, LEN
 
 R_ORDER = 52435875175126190479447740508185965837690552500527637822603658699938581184513
 
@@ -215,8 +215,12 @@ class FQ12Model:
 class World:
     """one instance per explored path: the stubs and their call records."""
 
-    def __init__(self, r=R_ORDER):
+    def __init__(self, r=R_ORDER, abstract_bytes=True):
         self.r = r
+        self.BS = BYTES if abstract_bytes else SEQ            # sort of byte strings
+        self.BC = AbsBytes if abstract_bytes else SymBytes     # shadow class
+        self.blen = LEN if abstract_bytes else z3.Length
+        self.sfx = "a" if abstract_bytes else ""
         self.pairings = []      # (Q, P, final_exponentiate flag)
         self.hash_calls = []    # (msg SymBytes, dst, hash function object, exponent term)
         self.decodes = []       # ("g1"|"g2", SymBytes, MP or None)
@@ -263,8 +267,7 @@ class World:
         """canonical encoding of the point: ENC(kc, t) with kc = k mod r written WITHOUT a mod operator
         (kc = k + r*j for a fresh integer j, 0 <= kc < r) so that every later equation stays polynomial."""
         n = 48 if g == 1 else 96
-        enc = F("ENC%d" % g, I, I, SEQ)
-        dk, dt, valid = F("DK%d" % g, SEQ, I), F("DT%d" % g, SEQ, I), F("VALID%d" % g, SEQ, B)
+        enc, dk, dt, valid = self.codec(g)
         c = core.cur()
         g0, _ = c.prove(z3.And(P.k >= 0, P.k < self.r), timeout_ms=5000)
         if g0 == "unsat":
@@ -275,10 +278,10 @@ class World:
             kexpr = P.kp + Poly.atom(j) * self.r
             c.add_fact(z3.And(kc == kexpr.z3(), kc >= 0, kc < self.r))
         s = enc(kc, P.t)
-        c.add_fact(z3.Length(s) == n)
+        c.add_fact(self.blen(s) == n)
         c.add_fact(z3.And(dk(s) == kc, dt(s) == P.t, valid(s)))
         self.encodes.append((g, P, s, kexpr))
-        return SymBytes(s, n)
+        return self.BC(s, n)
 
     def G1_to_pubkey(self, P):
         if P.group != "G1":
@@ -290,9 +293,13 @@ class World:
             raise Unsupported("G2_to_signature of a G1 point")
         return self._enc(2, P)
 
+    def codec(self, g):
+        x = self.sfx
+        return (F("ENC%d%s" % (g, x), I, I, self.BS), F("DK%d%s" % (g, x), self.BS, I), F("DT%d%s" % (g, x), self.BS, I),
+                F("VALID%d%s" % (g, x), self.BS, B))
+
     def _dec(self, g, s48or96):
-        enc = F("ENC%d" % g, I, I, SEQ)
-        dk, dt, valid = F("DK%d" % g, SEQ, I), F("DT%d" % g, SEQ, I), F("VALID%d" % g, SEQ, B)
+        enc, dk, dt, valid = self.codec(g)
         c = core.cur()
         s = s48or96.t
         for (g2, P, s2, kexpr) in self.encodes:
@@ -305,7 +312,7 @@ class World:
         return MP("G1" if g == 1 else "G2", dk(s), dt(s))
 
     def pubkey_to_G1(self, pk):
-        b = SymBytes.lift(pk)
+        b = self.BC.lift(pk)
         if b is None:
             raise TypeError("cannot convert %r to bytes" % (type(pk),))
         L = SymZ.lift(b.length)
@@ -314,14 +321,14 @@ class World:
             raise ValueError("model: c_flag should be 1 (fewer than 48 bytes)")
         s = b if (isinstance(b.length, int) and b.length == 48) else b[-48:]
         if not isinstance(s.length, int):
-            s = SymBytes(s.t, 48)
-            core.cur().add_fact(z3.Length(s.t) == 48)
+            s = self.BC(s.t, 48)
+            core.cur().add_fact(self.blen(s.t) == 48)
         P = self._dec(1, s)
         self.decodes.append(("g1", b, P))
         return P
 
     def signature_to_G2(self, sig):
-        b = SymBytes.lift(sig)
+        b = self.BC.lift(sig)
         if b is None:
             raise TypeError("cannot convert %r to bytes" % (type(sig),))
         L = SymZ.lift(b.length)
@@ -340,11 +347,11 @@ class World:
 
     # ---- hashing
     def hash_to_G2(self, message, DST, hash_function):
-        m = SymBytes.lift(message)
-        d = SymBytes.lift(DST)
+        m = self.BC.lift(message)
+        d = self.BC.lift(DST)
         if m is None or d is None:
             raise Unsupported("hash_to_G2 on non-bytes")
-        hh = F("Hh", SEQ, SEQ, I)
+        hh = F("Hh" + self.sfx, self.BS, self.BS, I)
         e = hh(m.t, d.t)
         c = core.cur()
         c.add_fact(z3.And(e >= 1, e < self.r))
